@@ -278,7 +278,7 @@ def check_litfmt(R, drv, tier):
     import kernels
     from kchecks import _account
     t0 = time.time()
-    L = 2 if tier == "quick" else 3
+    L = 2       # over all scalars (n = 3 over all scalars: the printer alone has 2197 paths with nested closure runs - more than 20 minutes)
     try:
         register_enum("Literal", enum_from_source(__import__("os").path.join(core.REPO, "prqlc/prqlc-parser/src/lexer/lr.rs"), "Literal"))
         src = open(__import__("os").path.join(core.REPO, "prqlc/prqlc-parser/src/lexer/lr.rs")).read().split("\n")
@@ -323,6 +323,8 @@ def check_litfmt(R, drv, tier):
     try:
         LQ = 4 if tier == "quick" else 5
         runs = [(n, "any") for n in range(L + 1)] + [(n, "quotes") for n in range(L + 1, LQ + 1)]
+        if tier != "quick":
+            runs.insert(L + 1, (3, "mixed"))
         budget = float(__import__("os").environ.get("VERIF_KERNEL_BUDGET_S", "0") or 0) or (2700.0 if tier == "thorough" else 1200.0)
         for n, alphabet in runs:
             if time.time() - t0 > budget:
@@ -331,6 +333,9 @@ def check_litfmt(R, drv, tier):
             text = [z3.BitVec(f"lit{n}_c{i}", 32) for i in range(n)]
             if alphabet == "any":
                 dom = [strlex.scalar(c) for c in text]
+            elif alphabet == "mixed":   # one symbolic class per way the printer treats a character: quotes, backslash, newline, letters, 2- and 4-digit \u escapes
+                dom = [z3.Or(c == 34, c == 39, c == 92, c == 10, z3.And(z3.UGE(c, 97), z3.ULE(c, 122)), z3.And(z3.UGE(c, 0xE0), z3.ULE(c, 0xFF)),
+                             z3.And(z3.UGE(c, 0x4E00), z3.ULE(c, 0x4E10))) for c in text]
             else:       # longer texts over the characters the delimiter logic looks at: both quotes, the backslash, one letter class
                 dom = [z3.Or(c == 34, c == 39, c == 92, z3.And(z3.UGE(c, 97), z3.ULE(c, 122))) for c in text]
             I = Interp(funcs, unwind=12 * n + 12, timeout_s=600 if tier == "quick" else 3000, max_paths=200000)
@@ -418,8 +423,8 @@ def check_litfmt(R, drv, tier):
     R.sample({"kernel": "K-litfmt", "printer_paths": nprint, "reader_paths": nread, "queries": nq,
               "property": f"for every string of <= {L} characters (every Unicode scalar; up to {LQ} characters over quotes, backslash and letters) the text Display writes for Literal::String is read back by the lexer's string reader "
               "as exactly that string, consuming all of it", "wall_s": round(time.time() - t0, 2)})
-    R.cov.setdefault("bounds", {})["K-litfmt"] = (f"strings of at most {L} characters over every Unicode scalar, and strings of {L + 1}..{LQ} characters over the alphabet "
-                                                  "{double quote, single quote, backslash, a-z}; printer and reader bodies from the prqlc-parser MIR composed path by path")
+    R.cov.setdefault("bounds", {})["K-litfmt"] = (f"strings of at most {L} characters over every Unicode scalar, strings of {L + 1}..{LQ} characters over the alphabet "
+                                                  "{double quote, single quote, backslash, a-z}" + ("" if tier == "quick" else "; strings of 3 characters over {quotes, backslash, newline, a-z, U+00E0..FF, U+4E00..4E10}") + "; printer and reader bodies from the prqlc-parser MIR composed path by path")
     core.log(f"[K-litfmt] {nprint} printer paths, {nread} reader paths, {nq} queries, {nviol} violations in {time.time()-t0:.1f}s")
 
 
